@@ -196,7 +196,59 @@ def replay_arr_index(spec, vals, obligation, desc):
     return body, judge
 
 
-KINDS = {'convert': replay_convert, 'ptr_arith': replay_ptr_arith, 'arr_index': replay_arr_index}
+WHOLLY = ('  auto wholly_in = [&](mathint a, mathint n){ int w = which(a); return a != 0 && w != -1 && in_reg(w, a + n - 1); };\n')
+
+
+def replay_check_range(spec, vals, obligation, desc):
+    pv, nv = _int(vals, 'in_p'), _int(vals, 'in_n')
+    body = PRE + 'int main(){\n' + backend_setup(vals) + WHOLLY
+    body += ('  int aborted = 0; mathint P = (mathint)%dULL, N = (mathint)%dULL;\n'
+             '  try { detail::check_range_doesnt_cross_app_sbx_boundary<vsbx>((const void*)%dULL, (size_t)%dULL); } catch (const std::runtime_error&) { aborted = 1; }\n'
+             '  std::printf("aborted=%%d\\n", aborted); pr("start", P); pr("size", N); pr("exact_end", P + N - 1);\n'
+             '  std::printf("end_wraps=%%d\\n", (int)(N >= 1 && P + N - 1 >= ((mathint)1 << 64)));\n'
+             '  std::printf("same_side=%%d\\n", (int)(which(P) == which((mathint)(uintptr_t)(%dULL + %dULL - 1))));\n  return 0; }\n'
+             % (pv, nv, pv, nv, pv, nv))
+
+    def judge(d):
+        cl = _clause(desc)
+        returned = d.get('aborted') == '0'
+        if cl == 'end_does_not_wrap':
+            return returned and d.get('end_wraps') == '1'
+        if cl == 'nonnull':
+            return returned and pv == 0
+        if cl == 'ends_same_side':
+            return returned and d.get('same_side') == '0'
+        if 'precondition' in obligation:
+            return d.get('aborted') == '1' and pv != 0 and nv >= 1 and d.get('end_wraps') == '0' and d.get('same_side') == '1'
+        return False
+    return body, judge
+
+
+def replay_unverified_ptr(spec, vals, obligation, desc):
+    pv, cv = _int(vals, 'in_p'), _int(vals, 'in_count')
+    body = PRE + 'int main(){\n' + backend_setup(vals) + WHOLLY
+    body += ('  tainted<%s*, vsbx> p; *reinterpret_cast<uintptr_t*>(&p) = %dULL; size_t count = (size_t)%dULL;\n'
+             '  int aborted = 0; uintptr_t ret = 0; mathint P = (mathint)%dULL; mathint bytes = (mathint)count * %d;\n'
+             '  try { ret = (uintptr_t)p.unverified_safe_pointer_because(count, "r"); } catch (const std::runtime_error&) { aborted = 1; }\n'
+             '  std::printf("aborted=%%d\\n", aborted); pr("p", P); pr("count", (mathint)count); pr("bytes", bytes); pr("returned", (mathint)ret);\n'
+             '  std::printf("elements_wholly_inside=%%d\\n", (int)(count >= 1 && wholly_in(P, bytes)));\n  return 0; }\n'
+             % (spec['pointee'], pv, cv, pv, spec['esz']))
+
+    def judge(d):
+        cl = _clause(desc)
+        returned = d.get('aborted') == '0'
+        if cl in ('elements_inside_small', 'elements_inside_huge'):
+            return returned and d.get('returned') != '0' and d.get('elements_wholly_inside') == '0'
+        if cl == 'returns_ptr':
+            return returned and d.get('returned') != str(pv)
+        if 'precondition' in obligation:     # no-abort direction
+            return d.get('aborted') == '1' and (pv == 0 or d.get('elements_wholly_inside') == '1')
+        return False
+    return body, judge
+
+
+KINDS = {'convert': replay_convert, 'ptr_arith': replay_ptr_arith, 'arr_index': replay_arr_index,
+         'check_range': replay_check_range, 'unverified_ptr': replay_unverified_ptr}
 
 
 def register(kind, fn):
